@@ -169,6 +169,12 @@ def run(sc, ctx):
             if derr or sorted(tuple(sorted(int(i) for i in t)) for t in direct) != sorted(tuple(sorted(int(i) for i in t)) for t in rec[0]):
                 out['violations'].append(viol('matches', 'differs-from-search', 'the replacement worked on matches %r, a search with the same tolerance %g reports %r [pair=%s]' % (
                     [tuple(int(i) for i in t) for t in rec[0]], sc['atol'], derr[0] if derr else [tuple(int(i) for i in t) for t in direct], c['pair']), sc, case=case))
+        if rec is not None and 'scale' in sc:
+            # beyond the small bound the occurrences are known by construction (the search itself is part of what is under test)
+            exp = sorted(tuple(sorted(t)) for t in c['spec']['planted']); got = sorted(tuple(sorted(int(i) for i in t)) for t in rec[0])
+            if got != exp:
+                out['violations'].append(viol('matches', 'differs-from-planted', 'structure of %d atoms: the replacement worked on %d match(es) %r, the structure holds the %d occurrence(s) %r' % (
+                    len(c['s'].atom_types), len(got), got[:6], len(exp), exp[:6]), sc))
         ns.add(n)
         if [raw_state(c['s']), raw_state(c['sp']), raw_state(c['rp'])] != before:
             out['violations'].append(viol('inputs-unmodified', 'modified', 'the call modified one of its input objects [pair=%s]' % c['pair'], sc, case=case))
